@@ -6,6 +6,7 @@ open AgdbSearch
 #print axioms C15_atom_kinds
 #print axioms C15_never_finish
 #print axioms C15_beyond_origin
+#print axioms C15_extent
 #print axioms C15_type_strict
 #print axioms C15_same_type
 #print axioms C15_contains_family
